@@ -194,6 +194,7 @@ fn reactortype_get_entity()
     assert!(ReactorType::ComponentRemoval(id).get_entity().is_none());
     assert!(ReactorType::ResourceMutation(id).get_entity().is_none());
     assert!(ReactorType::Broadcast(id).get_entity().is_none());
+    kani::cover!(true, "end of harness reached");
 }
 
 /// C16: `RevokeToken::iter_unique_entities` yields each entity named by the token exactly once, in first-occurrence
